@@ -236,6 +236,13 @@ class Facts(Walker):
                 return self.vn(args[0], st)
             if last == "mod" and len(args) == 2:
                 return "Mod(%s,%s)" % (self.vn(args[0], st), self.vn(args[1], st))      # np.mod(a, b) is a % b
+            # zero padding spelled as a stacking call: np.column_stack((np.zeros(n), q)) / np.hstack / np.concatenate(..., axis=1)
+            if last in ("column_stack", "hstack", "concatenate") and args and isinstance(args[0], (ast.Tuple, ast.List)):
+                elts = args[0].elts
+                zeros = [e for e in elts if (isinstance(e, ast.Call) and (self.np_name(e.func) or "").split(".")[-1] in ("zeros", "zeros_like")) or (isinstance(e, ast.Constant) and e.value == 0)]
+                rest = [e for e in elts if e not in zeros]
+                if zeros and len(rest) == 1:
+                    return "pad0(%s)" % self.vn(rest[0], st)
             # indices of the true entries of a mask, one canonical number: np.where(m) == np.nonzero(m) == np.nonzero(np.where(m, 1, 0)); np.flatnonzero(m) == np.where(m)[0]
             if last in ("where", "nonzero", "flatnonzero") and len(args) == 1 and not node.keywords:
                 m_ = args[0]
@@ -288,8 +295,94 @@ class Facts(Walker):
         self.refine(test, f, False)
         return t, f
 
+    # ---- sign classes of one quantity: which of {pos, zero, neg, nan} make an element-wise predicate true
+    _ALL_CLASSES = frozenset(("pos", "zero", "neg", "nan"))
+
+    def _pred_classes(self, e, st, depth=0):
+        """(vn of the quantity, classes on which the element-wise predicate ``e`` is true) or None.  Handles  X op 0,  isnan(X), isfinite(X),  not / ~,  and / or / & / |
+        over the SAME quantity, and boolean locals bound to such predicates."""
+        if depth > 6:
+            return None
+        if isinstance(e, ast.Name):
+            rec = st.get("b:" + e.id)
+            if rec is not None and self.vn(rec[0], st) == rec[1]:
+                return self._pred_classes(rec[0], st, depth + 1)
+            return None
+        if isinstance(e, ast.UnaryOp) and isinstance(e.op, (ast.Not, ast.Invert)):
+            r = self._pred_classes(e.operand, st, depth + 1)
+            return (r[0], self._ALL_CLASSES - r[1]) if r else None
+        if isinstance(e, ast.BoolOp) or (isinstance(e, ast.BinOp) and isinstance(e.op, (ast.BitAnd, ast.BitOr))):
+            parts = e.values if isinstance(e, ast.BoolOp) else [e.left, e.right]
+            is_and = isinstance(e.op, (ast.And, ast.BitAnd))
+            rs = [self._pred_classes(p, st, depth + 1) for p in parts]
+            if any(r is None for r in rs) or len({r[0] for r in rs}) != 1:
+                return None
+            acc = rs[0][1]
+            for r in rs[1:]:
+                acc = (acc & r[1]) if is_and else (acc | r[1])
+            return (rs[0][0], acc)
+        if isinstance(e, ast.Compare) and len(e.ops) == 1:
+            op, l, r = e.ops[0], e.left, e.comparators[0]
+            if _is_zero(l) and not _is_zero(r):
+                l, r = r, l
+                op = {ast.Lt: ast.Gt, ast.Gt: ast.Lt, ast.LtE: ast.GtE, ast.GtE: ast.LtE}.get(type(op), type(op))()
+            if not _is_zero(r):
+                return None
+            table = {ast.Gt: {"pos"}, ast.GtE: {"pos", "zero"}, ast.Lt: {"neg"}, ast.LtE: {"neg", "zero"}, ast.Eq: {"zero"}, ast.NotEq: {"pos", "neg", "nan"}}
+            t = table.get(type(op))
+            return (self.vn(l, st), frozenset(t)) if t is not None else None
+        if isinstance(e, ast.Call) and e.args:
+            last = (self.np_name(e.func) or "").split(".")[-1]
+            if last == "isnan":
+                return (self.vn(e.args[0], st), frozenset(("nan",)))
+            if last == "isfinite":
+                return (self.vn(e.args[0], st), frozenset(("pos", "zero", "neg")))
+        return None
+
+    def _quantified(self, test, st, truth, depth=0):
+        """classes every element of the quantity is known to lie in, given that ``test`` evaluated to ``truth``; None if nothing follows.
+        P: each element;  all(P) / P.all(): each when true;  any(P) / P.any() / sum(P) / count_nonzero(P): none of them when false."""
+        if depth > 6:
+            return None
+        if isinstance(test, ast.UnaryOp) and isinstance(test.op, ast.Not):
+            return self._quantified(test.operand, st, not truth, depth + 1)
+        if isinstance(test, ast.Name):
+            rec = st.get("b:" + test.id)
+            if rec is not None and self.vn(rec[0], st) == rec[1] and not isinstance(rec[0], ast.Name):
+                return self._quantified(rec[0], st, truth, depth + 1)
+            return None
+        inner, mode = None, None
+        if isinstance(test, ast.Call):
+            nm = (self.np_name(test.func) or "").split(".")[-1] or (test.func.id if isinstance(test.func, ast.Name) else "")
+            if nm in ("all", "any", "sum", "count_nonzero") and len(test.args) >= 1 and not isinstance(test.func, ast.Attribute):
+                inner, mode = test.args[0], ("all" if nm == "all" else "any")
+            elif nm in ("all", "any", "sum", "count_nonzero") and (self.np_name(test.func) or "") and test.args:
+                inner, mode = test.args[0], ("all" if nm == "all" else "any")
+            elif isinstance(test.func, ast.Attribute) and test.func.attr in ("all", "any", "sum") and not test.args:
+                inner, mode = test.func.value, ("all" if test.func.attr == "all" else "any")
+        if inner is not None:
+            r = self._pred_classes(inner, st)
+            if r is None:
+                return None
+            if mode == "all" and truth:
+                return r
+            if mode == "any" and not truth:
+                return (r[0], self._ALL_CLASSES - r[1])
+            return None
+        r = self._pred_classes(test, st)
+        if r is None:
+            return None
+        return r if truth else (r[0], self._ALL_CLASSES - r[1])
+
     def refine(self, test, st, truth):
         """add the facts implied by ``test`` being ``truth``"""
+        q_ = self._quantified(test, st, truth)
+        if q_ is not None and q_[1]:
+            if q_[1] <= {"pos", "neg"}:
+                self.add(st, "NZ", q_[0])
+                self.add(st, "NZS", q_[0])
+            elif q_[1] <= {"pos", "neg", "nan"}:
+                self.add(st, "NZ", q_[0])
         if isinstance(test, ast.Name):
             # a boolean local holding a comparison:  at_pole = cos_lat == 0.0 ... if at_pole:
             rec = st.get("b:" + test.id)
@@ -484,8 +577,9 @@ class Facts(Walker):
             st.pop("stale:" + t.id, None)
             if stale is not None:
                 st["stale:" + t.id] = stale
-            if isinstance(value_node, (ast.Compare, ast.BoolOp)) or (isinstance(value_node, ast.UnaryOp) and isinstance(value_node.op, ast.Not)) \
-                    or (isinstance(value_node, ast.Call) and (self.np_name(value_node.func) or "") in ("isclose", "allclose")):
+            if isinstance(value_node, (ast.Compare, ast.BoolOp)) or (isinstance(value_node, ast.UnaryOp) and isinstance(value_node.op, (ast.Not, ast.Invert))) \
+                    or (isinstance(value_node, ast.BinOp) and isinstance(value_node.op, (ast.BitAnd, ast.BitOr))) \
+                    or (isinstance(value_node, ast.Call) and (self.np_name(value_node.func) or "") in ("isclose", "allclose", "isnan", "isfinite")):
                 st["b:" + t.id] = (value_node, self.vn(value_node, st))
             # facts about the right-hand side are derived in the state *before* the name is rebound
             unit = value_node is not None and self.is_unit(value_node, st)
@@ -629,6 +723,16 @@ class Facts(Walker):
                     return True
         if isinstance(node, ast.UnaryOp) and isinstance(node.op, ast.USub):
             return self.is_unit(node.operand, st, depth + 1)
+        if isinstance(node, ast.Attribute) and node.attr == "T":
+            return self.is_unit(node.value, st, depth + 1)       # a transposed stack of unit quaternions is the same quaternions
+        if isinstance(node, ast.Name) and depth < 4:
+            # a module-level tuple / list of four numbers with unit norm (an identity-quaternion constant)
+            try:
+                r_ = self.func.module.resolve_name(node.id) if ("v:" + node.id) not in st else None
+            except Exception:
+                r_ = None
+            if isinstance(r_, tuple) and r_[0] == "assign" and isinstance(r_[3], (ast.Tuple, ast.List)):
+                return self.is_unit(r_[3], st, depth + 1)
         if isinstance(node, (ast.List, ast.Tuple)) or (isinstance(node, ast.Call) and (self.np_name(node.func) or "") == "array" and node.args and isinstance(node.args[0], (ast.List, ast.Tuple))):
             lit = node if isinstance(node, (ast.List, ast.Tuple)) else node.args[0]
             try:
@@ -640,8 +744,8 @@ class Facts(Walker):
         if isinstance(node, ast.Call):
             f = node.func
             npn = self.np_name(f)
-            if npn is not None and npn.split(".")[-1] in (VALUE_PRESERVING_NP | {"roll", "flip"}) and node.args:
-                return self.is_unit(node.args[0], st, depth + 1)      # permutations keep the norm
+            if npn is not None and npn.split(".")[-1] in (VALUE_PRESERVING_NP | {"roll", "flip", "array", "asarray", "ascontiguousarray", "transpose"}) and node.args:
+                return self.is_unit(node.args[0], st, depth + 1)      # permutations / copies / transpositions keep the norm
             r = self._resolve(f)
             if isinstance(r, Class) and r.name == "Quaternion":
                 # versor defaults to True; versor=False explicitly disables normalisation
